@@ -18,6 +18,7 @@ static Verdict runCase(const EncCase& c, Info& info)
     lib::Encoder enc;
     enc.setDeviceId(c.dev);
     enc.setStreamId(c.stream);
+    runPriorCalls(enc, c);
     auto frames = enc.encode(batch.begin(), batch.end(), lib::DataContext{c.minB, c.maxB});
 
     if (batch.empty())
@@ -82,6 +83,8 @@ static Verdict runCase(const EncCase& c, Info& info)
     VF_CHECK(pkt == payloads.size() && pos == 0, "only " << pkt << " of " << payloads.size() << " packets were emitted completely");
 
     EncClasses k = classify(c, lengths);
+    if (!c.prior.empty())
+        info.tag("encoder_had_earlier_calls");
     if (k.segmented)
         info.tag("segmented");
     if (k.aggregated)
@@ -106,7 +109,7 @@ int main(int argc, char** argv)
         EncGenParams p;
         p.maxBatch = tier ? 40 : 12;
         p.allowEmpty = true;
-        return genEncCase(p);
+        return withPriorCalls(genEncCase(p), p);
     };
     prop.run = runCase;
     return pbtMain(argc, argv, prop);
